@@ -303,6 +303,61 @@ def docs_do_not_alter_type(rep):
             rep.discharged += 1
     rep.absorb(dict(paths=ex.paths, nontrivial=ex.paths, queries=ex.queries, solver_s=ex.solver_s))
     rep.part('docs do not alter the type (tier B corpus D1/D2)', paths=ex.paths)
+    doc_twins(rep)
+
+
+# documented item, its doc-less twin, and for every documented NAMED field the key its comment block must sit in front of
+DOC_TWINS = [('DD1', 'DN1', [('da', '"a-b"'), ('db', 'b'), ('dc', 'c'), ('dd', 'd'), ('df', 'type')]),
+             ('DD2', 'DN2', [('fa', 'x'), ('fb', '"y-y"')]), ('DD3', 'DN3', [('fa', 'x')]), ('DD4', 'DN4', [])]
+
+
+def doc_twins(rep):
+    """Tier B: doc comments in every position the derive accepts them (container, fields with rename / type / optional / inline /
+    flatten / raw identifiers, variants, fields of struct variants, tuple fields) next to the doc-less twin: the two bindings are the
+    same TypeScript type (parsed and normalised, comments skipped; and textually equal once the blocks are removed), and each
+    named field's text sits in one block immediately in front of its property."""
+    from . import tyres
+    from . import tsparse as TP
+    TG = tyres.G
+    for dd, dn, fields in DOC_TWINS:
+        if dd not in TG['corpus'] or dn not in TG['corpus']:
+            rep.inconclusive.append(f'doc twins: corpus item {dd}/{dn} missing')
+            continue
+        ex = Explorer()
+
+        def h(ctx):
+            r = tyres.Resolver(['T'])
+            m = tyres.machine(ctx, r)
+            return {(ty, meth): list(m.call(f'<{ty}<T> as TS>::{meth}', []).cs) for ty in (dd, dn) for meth in ('inline', 'decl')}
+        try:
+            res = ex.run(h)
+        except (Unsupported, Panic) as e:
+            rep.inconclusive.append(f'doc twins {dd}: {e}')
+            continue
+        rep.absorb(dict(paths=ex.paths, nontrivial=ex.paths, queries=ex.queries, solver_s=ex.solver_s))
+        for pc, o_ in res:
+            rep.obligations += 1
+            with_docs, without = tyres.show_rope(o_[(dd, 'inline')]), tyres.show_rope(o_[(dn, 'inline')])
+            why = None
+            try:
+                if TP.show(TP.normalize(TP.parse(o_[(dd, 'inline')]))) != TP.show(TP.normalize(TP.parse(o_[(dn, 'inline')]))):
+                    why = 'the documented binding denotes a different type than its doc-less twin'
+            except TP.ParseError as e:
+                why = f'the documented binding is not well-formed TypeScript: {e}'
+            if why is None and re.sub(r'\n/\*\*.*?\*/\n', '', with_docs, flags=re.S) != without:
+                why = 'removing the comment blocks does not give the doc-less twin\'s text'
+            if why is None and re.sub(r'\n/\*\*.*?\*/\n', '', tyres.show_rope(o_[(dd, 'decl')]), flags=re.S).replace(dd, 'X') != \
+                    tyres.show_rope(o_[(dn, 'decl')]).replace(dn, 'X'):
+                why = 'decl() of the documented item differs from its twin beyond the comment blocks'
+            for mark, key in fields:
+                if why is None and not re.search(r'\n/\*\*\n \*\s?' + mark + r'\n \*/\n' + re.escape(key) + r'\??: ', with_docs):
+                    why = f'the documentation `{mark}` is not one comment block immediately in front of the property {key}'
+            if why:
+                rep.violations.append({'what': f'{TG["corpus"][dd]["src"][:90]}..: {why} [with docs {with_docs!r}; without {without!r}]',
+                                       'witness': {'item': dd}, 'key': f'doctwin/{dd}'})
+            else:
+                rep.discharged += 1
+    rep.part('doc twins (tier B corpus DD1..DD4 vs DN1..DN4)', pairs=len(DOC_TWINS))
 
 
 def main():
